@@ -23,6 +23,7 @@ impl PanicInfo {
 
 thread_local! {
     static LAST_PANIC: RefCell<Option<PanicInfo>> = const { RefCell::new(None) };
+    static GUARD_DEPTH: std::cell::Cell<u32> = const { std::cell::Cell::new(0) };
 }
 
 static HOOK: Once = Once::new();
@@ -49,6 +50,10 @@ pub fn install_panic_hook() {
                     None => file,
                 },
             };
+            if GUARD_DEPTH.with(|d| d.get()) == 0 {
+                // not inside a guarded call into the repository: a harness bug, show it
+                eprintln!("harness panic: {} ({}:{})", message, file, line);
+            }
             LAST_PANIC.with(|p| *p.borrow_mut() = Some(PanicInfo { message, file, line }));
         }));
     });
@@ -58,7 +63,10 @@ pub fn install_panic_hook() {
 pub fn guard<T>(f: impl FnOnce() -> T) -> Result<T, PanicInfo> {
     install_panic_hook();
     LAST_PANIC.with(|p| *p.borrow_mut() = None);
-    match catch_unwind(AssertUnwindSafe(f)) {
+    GUARD_DEPTH.with(|d| d.set(d.get() + 1));
+    let r = catch_unwind(AssertUnwindSafe(f));
+    GUARD_DEPTH.with(|d| d.set(d.get() - 1));
+    match r {
         Ok(v) => Ok(v),
         Err(_) => Err(LAST_PANIC.with(|p| p.borrow_mut().take()).unwrap_or(PanicInfo {
             message: "<unknown panic>".into(),
